@@ -23,8 +23,10 @@ RT = {"i": "i64", "p": "(i64, i64)", "kp": "(i64, (i64, i64))", "vi": "Vec<i64>"
 # ---------------------------------------------------------------------------------------------
 MAPS = {"inc": ("i", "i"), "dbl": ("i", "i"), "mod3": ("i", "i"), "key_mod2": ("i", "p"),
         "key_mod3": ("i", "p"), "pair_self": ("i", "p"), "fst": ("p", "i"), "snd": ("p", "i"),
-        "swap": ("p", "p"), "sum_pair": ("p", "i"), "val_inc": ("p", "p"), "join_sum": ("kp", "p")}
-PREDS = {"is_even": "i", "lt3": "i", "lt6": "i", "gt1": "i", "key_even": "p", "val_lt3": "p"}
+        "swap": ("p", "p"), "sum_pair": ("p", "i"), "val_inc": ("p", "p"), "join_sum": ("kp", "p"), "join_right": ("kp", "i"), "mul10": ("i", "i")}
+PREDS = {"is_even": "i", "lt3": "i", "lt6": "i", "gt1": "i", "key_even": "p", "val_lt3": "p", "lt100": "i"}
+RANDOM_PREDS = ["is_even", "lt3", "lt6", "gt1", "key_even", "val_lt3"]
+RANDOM_MAPS = ["inc", "dbl", "mod3", "key_mod2", "key_mod3", "pair_self", "fst", "snd", "swap", "sum_pair", "val_inc", "join_sum", "join_right"]
 FLATS = {"dup": ("i", "i"), "rep_mod3": ("i", "i"), "pair_flat": ("p", "i")}
 OPTS = {"half_even": ("i", "i"), "dec_pos": ("i", "i")}
 FOLDS = {"sum": ("i", "i"), "max": ("i", "i"), "count": ("*", "i"), "push": ("i", "vi"), "sum_snd": ("p", "i")}
@@ -78,7 +80,9 @@ class Prog:
         self.loops = []         # dicts parent, first, last, root
         self.src_types = []
         self.sinks = []         # (node idx, ordered flag)
-        self.avail_ok = True    # run_available terminates for every input
+        self.avail_ok = True    # False: builder knows run_available may not terminate
+        self.avail_cycle_ok = False   # True: builder vouches that the deferred cycle dies out
+        self.avail_term = False
         self.cur_loop = 0
         self.expect = None      # calibration: list of histories with expected outputs
         self.tags = set()       # coverage tags "op/pers"
@@ -120,7 +124,7 @@ class Prog:
         k = len(self.sinks) + 1
         o = self.od(s) if ordered is None else ordered
         self.sinks.append((len(self.nodes) + 1, bool(o)))
-        txt = "for_each(|x| lg%d.borrow_mut().push((%d, context.current_tick().0, rt::ToV::to_v(&x))))" % (k, k)
+        txt = "for_each(|x| rt::sink(&lg%d, %d, context.current_tick().0, &x))" % (k, k)
         self._add("sink", [s], [], [], txt, k=k)
 
     # -- unary stateless
@@ -326,8 +330,9 @@ class Prog:
             "add_ref": "map(|x: i64| x + *#%s%s)" % (g, name),
             "add_opt": "map(|x: i64| x + #%s%s.unwrap_or(100))" % (g, name),
             "add_len": "map(|x: i64| x + (#%s%s.len() as i64))" % (g, name),
-            "acc_mut": "map(|x: i64| { let old = *#%smut %s; *#%smut %s += x; x + old })" % (g, name, g, name),
-            "push_mut": "map(|x: i64| { let n = #%smut %s.len() as i64; #%smut %s.push(x); n })" % (g, name, g, name),
+            "acc_mut": "map(|x: i64| { let r: &mut i64 = #%smut %s; let old = *r; *r += x; x + old })" % (g, name),
+            "push_mut": "map(|x: i64| { let r: &mut _ = #%smut %s; let n = r.len() as i64; r.push(x); n })" % (g, name),
+            "retain_gt": "map(|x: i64| { let r: &mut _ = #%smut %s; r.retain(|y: &i64| *y > x); x })" % (g, name),
         }[fn]
         self.need(s, "i")
         return self._add("ref_map", [s], ["i"], [self.od(s)], txt, fn=fn, refs=[cell[0]],
@@ -344,9 +349,13 @@ class Prog:
         return self._add("ref_filter", [s], ["i"], [self.od(s)], txt, fn=fn, refs=[cell[0]],
                          k=-1 if group is None else group)
 
-    def iter_ref(self, cell):
+    def iter_ref_g(self, cell, group):
+        return self.iter_ref(cell, group)
+
+    def iter_ref(self, cell, group=None):
         name = "n%d" % cell[0]
-        r = self._add("iter_ref", [], [self.ty(cell)], [self.od(cell)], "iter_ref(#%s)" % name, refs=[cell[0]])
+        g = "" if group is None else "{%d} " % group
+        r = self._add("iter_ref", [], [self.ty(cell)], [self.od(cell)], "iter_ref(#%s%s)" % (g, name), refs=[cell[0]])
         self.nodes[-1].post = " -> map(|x: &%s| x.clone())" % RT[self.ty(cell)]
         return r
 
@@ -365,6 +374,10 @@ class Prog:
     def window(self, s, op="batch"):
         return self._add(op, [s], [self.ty(s)], [self.od(s)], op + "()")
 
+    def unwindow(self, s):
+        """all_iterations(): in the PARENT context of the loop that contains s"""
+        return self._add("all_iterations", [s], [self.ty(s)], [False], "all_iterations()")
+
     # ------------------------------------------------------------------------------------
     def consumers(self):
         """(node, port) -> list of (consumer idx, input position or 'd')"""
@@ -377,6 +390,7 @@ class Prog:
         return c
 
     def check(self):
+        self.avail_term = self.avail_cycle_ok or self.compute_avail_ok()
         cons = self.consumers()
         referenced = {r for n in self.nodes for r in n.refs}
         for n in self.nodes:
@@ -389,6 +403,41 @@ class Prog:
                 if a >= n.idx:
                     raise GenError("forward same-tick edge")
 
+    def compute_avail_ok(self):
+        """run_available terminates for every input iff no non-lazy defer_tick can keep receiving
+        items without external input.  Conservative: the upstream cone (through same-tick and
+        delayed edges) of every non-lazy defer_tick must consist of operators that emit nothing on
+        empty input and keep no state that regenerates output; and must not contain the defer
+        itself (cycles are only allowed where the builder set avail_ok explicitly)."""
+        if not self.avail_ok:
+            return False
+        QUIET_STATIC = {"unique", "enumerate", "scan", "zip", "cross_singleton"}
+        def noisy(n):
+            if n.op in ("fold", "persist", "source_iter"):
+                return True
+            if n.op == "fold_no_replay":
+                return False    # emits at tick 0 only
+            if "static" in n.pers and n.op not in QUIET_STATIC:
+                return True
+            return False
+        for d in self.nodes:
+            if d.op != "defer_tick":
+                continue
+            seen, todo = set(), [d.din[0]]
+            while todo:
+                x = todo.pop()
+                if x in seen:
+                    continue
+                seen.add(x)
+                n = self.nodes[x - 1]
+                if noisy(n) or x == d.idx:
+                    return False
+                todo.extend(a for a, _ in n.ins)
+                todo.extend(n.refs)
+                if n.din:
+                    todo.append(n.din[0])
+        return True
+
     def desc(self):
         return {"nodes": [n.desc() for n in self.nodes],
                 "loops": self.loops, "nsrc": len(self.src_types), "nsink": len(self.sinks),
@@ -398,7 +447,7 @@ class Prog:
     # Rust emission.  `deco`: dict edge (producer idx, port, consumer idx, pos) -> list of
     # decorations from {"identity","map_id","handoff","union_empty","tee_null"} (C22 variants)
     # ------------------------------------------------------------------------------------
-    def rust_body(self, deco=None):
+    def rust_body(self, deco=None, shuffle=None):
         deco = deco or {}
         cons = self.consumers()
         lines = {0: []}     # loop id -> lines (nested emission afterwards)
@@ -441,18 +490,15 @@ class Prog:
 
         for n in self.nodes:
             lp = n.lp
-            # a decoration chain lives in the loop context of the PRODUCER unless the consumer is a
-            # windowing / unwindowing operator (which must directly face the other context)
             name = "n%d" % n.idx
             ntee = len(n.otypes) == 1 and len(cons.get((n.idx, 1), [])) > 1
             tail = n.post + (" -> tee()" if ntee else "")
             if n.op == "sink":
                 s = n.ins[0]
-                lines[lp].append("%s -> %s;" % (edge_src(s, n.idx, 0, self.nodes[s[0] - 1].lp if self._same_ctx(s, n) else lp), n.rust))
+                lines[lp].append("%s -> %s;" % (edge_src(s, n.idx, 0, lp), n.rust))
             elif n.din is not None:
                 s = n.din
-                plp = self.nodes[s[0] - 1].lp
-                lines[lp].append("%s = %s -> %s%s;" % (name, edge_src(s, n.idx, "d", plp if plp == lp else lp), n.rust, tail))
+                lines[lp].append("%s = %s -> %s%s;" % (name, edge_src(s, n.idx, "d", lp), n.rust, tail))
             elif len(n.ins) == 0:
                 lines[lp].append("%s = %s%s;" % (name, n.rust, tail))
             elif n.op == "multiset_delta":
@@ -463,7 +509,7 @@ class Prog:
                 lines[lp].append("%s = %sq -> %s%s;" % (name, name, n.rust, tail))
             elif len(n.ins) == 1 and not n.inports:
                 s = n.ins[0]
-                lines[lp].append("%s = %s -> %s%s;" % (name, edge_src(s, n.idx, 0, lp if self._same_ctx(s, n) else lp), n.rust, tail))
+                lines[lp].append("%s = %s -> %s%s;" % (name, edge_src(s, n.idx, 0, lp), n.rust, tail))
             else:
                 lines[lp].append("%s = %s%s;" % (name, n.rust, tail))
                 for i, s in enumerate(n.ins):
@@ -472,6 +518,10 @@ class Prog:
                 for p in range(1, len(n.otypes) + 1):
                     if len(cons.get((n.idx, p), [])) > 1:
                         lines[lp].append("n%dp%d = n%d[%s] -> tee();" % (n.idx, p, n.idx, n.outports[p - 1]))
+        if shuffle is not None:
+            # statement order is semantically irrelevant in DFIR: permute it (C22 / C25)
+            for li in lines:
+                shuffle.shuffle(lines[li])
 
         def emit(li, ind):
             out = []
@@ -488,7 +538,7 @@ class Prog:
     def _same_ctx(self, s, n):
         return self.nodes[s[0] - 1].lp == n.lp
 
-    def rust_fn(self, fname, deco=None):
+    def rust_fn(self, fname, deco=None, shuffle=None):
         L = []
         L.append("pub fn %s(steps: &Value, out: &mut Trace) {" % fname)
         snd = []
@@ -499,7 +549,7 @@ class Prog:
         for k in range(1, len(self.sinks) + 1):
             L.append("    let lg%d = log.clone();" % k)
         L.append("    let mut df = dfir_syntax! {")
-        L.append(self.rust_body(deco))
+        L.append(self.rust_body(deco, shuffle))
         L.append("    };")
         L.append("    let senders: Vec<rt::Sender> = vec![%s];" % ", ".join(snd))
         L.append("    rt::drive(&mut df, &senders, &log, %d, steps, out);" % len(self.sinks))
@@ -685,6 +735,7 @@ def corpus():
         u = p.union(s, d)
         p.sink(u)
         p.defer_bind(d, p.map(p.filter(u, "lt6"), "inc"))
+        p.avail_cycle_ok = True
     add("defer_cycle_count", "C24", b)
 
     def b(p):
@@ -693,6 +744,7 @@ def corpus():
         u = p.union(s, d)
         p.sink(u)
         p.defer_bind(d, p.map(p.filter(u, "lt6"), "inc"))
+        p.avail_cycle_ok = True
     add("defer_lazy_cycle", "C24", b)
 
     def b(p):
@@ -723,6 +775,241 @@ def corpus():
     add("defer_reduce_persist", "C24", b)
     return P
 
+
+
+# ---------------------------------------------------------------------------------------------
+# C25: references
+# ---------------------------------------------------------------------------------------------
+def refs_corpus():
+    P = []
+
+    def add(name, build):
+        p = Prog(name, "C25")
+        build(p)
+        p.check()
+        P.append(p)
+
+    def b(p):       # singleton read; the reader shares its source with the producer
+        a, c = p.src(), p.src()
+        sv = p.cell(p.fold(c, "max", "tick"), "singleton")
+        p.sink(p.ref_map(a, sv, "add_ref"))
+        p.sink(p.ref_filter(c, sv, "le_ref"))
+        p.sink(sv)
+    add("ref_singleton_read", b)
+
+    def b(p):       # no pipe consumer, 'static fold
+        a, c = p.src(), p.src()
+        sv = p.cell(p.fold(p.map(c, "inc"), "sum", "static"), "singleton")
+        p.sink(p.ref_map(a, sv, "add_ref"))
+    add("ref_singleton_only", b)
+
+    def b(p):       # optional
+        a, c = p.src(), p.src()
+        ov = p.cell(p.reduce(c, "max", "tick"), "optional")
+        p.sink(p.ref_map(a, ov, "add_opt"))
+        p.sink(p.ref_filter(a, ov, "le_opt"))
+        p.sink(ov)
+    add("ref_optional", b)
+
+    def b(p):       # handoff len + iter_ref
+        a, c = p.src(), p.src()
+        hb = p.cell(p.map(c, "dbl"), "handoff")
+        p.sink(p.ref_map(a, hb, "add_len"))
+        p.sink(p.iter_ref(hb))
+        p.sink(hb)
+    add("ref_handoff_len", b)
+
+    def b(p):       # access groups: {0} mut, {1} two readers; pipe consumer sees the final value
+        a, c, d = p.src(), p.src(), p.src()
+        sv = p.cell(p.fold(c, "sum", "tick"), "singleton")
+        p.sink(p.ref_map(a, sv, "acc_mut", group=0))
+        p.sink(p.ref_map(d, sv, "add_ref", group=1))
+        p.sink(p.ref_filter(a, sv, "le_ref", group=1))
+        p.sink(sv)
+    add("ref_groups_mut_then_read", b)
+
+    def b(p):       # read before and after two mutations
+        a, c, d = p.src(), p.src(), p.src()
+        sv = p.cell(p.fold(c, "max", "static"), "singleton")
+        p.sink(p.ref_map(d, sv, "add_ref", group=0))
+        p.sink(p.ref_map(a, sv, "acc_mut", group=1))
+        p.sink(p.ref_map(d, sv, "acc_mut", group=2))
+        p.sink(p.ref_map(a, sv, "add_ref", group=3))
+        p.sink(sv)
+    add("ref_groups_read_mut_mut_read", b)
+
+    def b(p):       # handoff mutated by push, then iterated and consumed
+        a, c = p.src(), p.src()
+        hb = p.cell(c, "handoff")
+        p.sink(p.ref_map(a, hb, "push_mut", group=0))
+        p.sink(p.iter_ref_g(hb, 1))
+        p.sink(hb)
+    add("ref_handoff_push_mut", b)
+
+    def b(p):       # retain on a handoff before its consumer drains it
+        a, c = p.src(), p.src()
+        hb = p.cell(p.map(c, "inc"), "handoff")
+        p.sink(p.ref_map(p.reduce(a, "max", "tick"), hb, "retain_gt"))
+        p.sink(p.fold(hb, "sum", "tick"))
+    add("ref_handoff_retain", b)
+
+    def b(p):       # producer behind a deep pipeline crossing union / tee / join
+        a, c, d = p.src(), p.src(), p.src()
+        j = p.join(p.map(c, "key_mod2"), p.map(d, "key_mod2"), ("tick", "static"))
+        u = p.union(p.map(p.map(j, "join_sum"), "snd"), p.flat_map(c, "dup"), d)
+        sv = p.cell(p.fold(p.unique(u, "tick"), "count", "tick"), "singleton")
+        p.sink(p.ref_map(a, sv, "add_ref"))
+        p.sink(p.fold(p.ref_filter(u, sv, "le_ref"), "count", "tick"))
+    add("ref_deep_producer", b)
+
+    def b(p):       # reader output feeds stateful operators and another cell
+        a, c = p.src(), p.src()
+        sv = p.cell(p.fold(c, "sum", "tick"), "singleton")
+        r = p.ref_map(a, sv, "add_ref")
+        sv2 = p.cell(p.fold(r, "max", "tick"), "singleton")
+        p.sink(p.ref_map(c, sv2, "add_ref"))
+        p.sink(p.unique(r, "static"))
+    add("ref_chain_of_cells", b)
+
+    def b(p):       # deferred input into the cell
+        a, c = p.src(), p.src()
+        d = p.defer("i")
+        p.defer_bind(d, c)
+        sv = p.cell(p.fold(d, "sum", "static"), "singleton")
+        p.sink(p.ref_map(a, sv, "add_ref"))
+    add("ref_cell_after_defer", b)
+    return P
+
+
+# ---------------------------------------------------------------------------------------------
+# C26: loops
+# ---------------------------------------------------------------------------------------------
+def loops_corpus():
+    P = []
+
+    def add(name, build):
+        p = Prog(name, "C26")
+        build(p)
+        p.avail_cycle_ok = True
+        p.check()
+        P.append(p)
+
+    def cycle(p, w, lazy=False, step="inc", cond="lt6"):
+        d = p.defer("i", lazy=lazy, ordered=False)
+        u = p.union(w, d)
+        p.defer_bind(d, p.map(p.filter(u, cond), step))
+        return u
+
+    def b(p):       # root loop gating, batch + batch_lazy
+        t, z = p.src(), p.src()
+        p.loop_begin()
+        u = p.union(p.window(t), p.window(z, "batch_lazy"))
+        p.sink(p.map(u, "inc"))
+        p.loop_end()
+    add("loop_root_gate_lazy", b)
+
+    def b(p):       # two independent root loops
+        t, z = p.src(), p.src()
+        p.loop_begin()
+        p.sink(p.window(t))
+        p.loop_end()
+        p.loop_begin()
+        p.sink(p.fold(p.window(z), "sum", "tick"))
+        p.loop_end()
+    add("loop_root_independent", b)
+
+    def b(p):       # only lazy entries: no gate -> always runs
+        t = p.src()
+        p.loop_begin()
+        p.sink(p.fold(p.window(t, "batch_lazy"), "count", "tick"))
+        p.loop_end()
+    add("loop_root_no_gate", b)
+
+    for lazy in (False, True):
+        def b(p, lazy=lazy):   # root loop with a deferred cycle: one step per tick
+            t = p.src()
+            p.loop_begin()
+            p.sink(cycle(p, p.window(t), lazy=lazy))
+            p.loop_end()
+        add("loop_root_defer" + ("_lazy" if lazy else ""), b)
+
+    for lazy in (False, True):
+        def b(p, lazy=lazy):   # nested loop: fixpoint within one tick (lazy: one iteration, leftovers kept)
+            t = p.src()
+            p.loop_begin()
+            rd = p.simple(p.window(t), "identity")
+            p.loop_begin()
+            u = cycle(p, p.window(rd), lazy=lazy)
+            p.sink(u)
+            p.loop_end()
+            p.loop_end()
+        add("loop_nested_defer" + ("_lazy" if lazy else ""), b)
+
+    def b(p):       # all_iterations collects every iteration
+        t = p.src()
+        p.loop_begin()
+        rd = p.simple(p.window(t), "identity")
+        p.loop_begin()
+        u = cycle(p, p.window(rd), step="dbl", cond="lt6")
+        p.sink(p.fold(u, "count", "tick"))      # 'tick state spans the iterations of one tick
+        p.loop_end()
+        ai = p.unwindow(u)
+        p.sink(p.sort(ai))
+        p.sink(p.fold(ai, "sum", "tick"))
+        p.loop_end()
+    add("loop_all_iterations", b)
+
+    def b(p):       # reachability: join inside a nested loop, unique::<'tick> makes it a fixpoint
+        seeds, edges = p.src(), p.src("p")
+        p.loop_begin()
+        sb = p.simple(p.window(seeds), "identity")
+        eb = p.simple(p.window(edges, "batch_lazy"), "identity")
+        p.loop_begin()
+        d = p.defer("i", ordered=False)
+        reach = p.unique(p.union(p.window(sb), d), "tick")
+        j = p.join(p.map(reach, "pair_self"), p.window(eb, "batch_lazy"), ("tick", "tick"))
+        p.defer_bind(d, p.map(j, "join_right"))
+        p.loop_end()
+        p.sink(p.sort(p.unwindow(reach)))
+        p.loop_end()
+    add("loop_reachability", b)
+
+    def b(p):       # nested batch_lazy: lazy data only visible in the first inner iteration
+        t, z = p.src(), p.src()
+        p.loop_begin()
+        tr = p.simple(p.window(t), "identity")
+        zr = p.simple(p.window(z, "batch_lazy"), "identity")
+        p.loop_begin()
+        u = cycle(p, p.window(tr))
+        zl = p.window(zr, "batch_lazy")
+        p.sink(p.cross_join(u, zl, ("tick", "tick")))
+        p.loop_end()
+        p.loop_end()
+    add("loop_nested_lazy_entry", b)
+
+    def b(p):       # persist inside a root loop replays only when the loop fires
+        t = p.src()
+        p.loop_begin()
+        p.sink(p.persist(p.window(t)))
+        p.loop_end()
+    add("loop_root_persist", b)
+
+    def b(p):       # three levels
+        t = p.src()
+        p.loop_begin()
+        a = p.simple(p.window(t), "identity")
+        p.loop_begin()
+        m = cycle(p, p.window(a), step="dbl", cond="lt3")
+        mi = p.simple(m, "identity")
+        p.loop_begin()
+        inner = cycle(p, p.window(mi), step="inc", cond="lt6")
+        p.loop_end()
+        ai = p.unwindow(inner)
+        p.loop_end()
+        p.sink(p.sort(p.unwindow(ai)))
+        p.loop_end()
+    add("loop_three_levels", b)
+    return P
 
 # ---------------------------------------------------------------------------------------------
 # calibration corpus: programs of /repo/dfir_rs/tests/surface_*.rs re-expressed, with the outputs
@@ -827,7 +1114,111 @@ def calibration():
         p.sink(p.zip(p.src(), p.src(), ("tick", "tick")))
     add("cal_zip_tick", b, [[T([[1, 2, 3], [7]], [[1, 7]]), T([[], [8, 9, 10]]), T([[4], [5]], [[4, 5]])]])
     P[-1].expect[0][1]["ticks"] = [[[]]]
+
+    # ---- surface_loop.rs
+    def cyc(p, w, lazy=False):
+        d = p.defer("i", lazy=lazy, ordered=False)
+        u = p.union(w, d)
+        p.defer_bind(d, p.map(p.filter(u, "lt100"), "mul10") if not lazy else p.map(u, "mul10"))
+        return u
+
+    def b(p):       # test_loop_gating_basic / test_root_loop_fires_once_per_tick
+        p.loop_begin()
+        p.sink(p.window(p_src[0]))
+        p.loop_end()
+    def with_src(f, n=1, tys=None):
+        def g(p):
+            p_src[:] = [p.src((tys or ["i"] * n)[i]) for i in range(n)]
+            f(p)
+        return g
+    p_src = []
+    add("cal_loop_gating_basic", with_src(b), [[T([[]], []), T([[1, 2]], [1, 2]), T([[]], [])]])
+
+    def b(p):       # test_defer_tick_basic / test_nested_loop_defer_tick: 1 -> 10 -> 100 in ONE tick
+        p.loop_begin()
+        rd = p.simple(p.window(p_src[0]), "identity")
+        p.loop_begin()
+        p.sink(cyc(p, p.window(rd)), ordered=True)
+        p.loop_end()
+        p.loop_end()
+    add("cal_loop_nested_defer_tick", with_src(b), [[T([[1]], [1, 10, 100]), T([[]], [])]])
+
+    def b(p):       # test_defer_tick_lazy
+        p.loop_begin()
+        rd = p.simple(p.window(p_src[0]), "identity")
+        p.loop_begin()
+        p.sink(cyc(p, p.window(rd), lazy=True))
+        p.loop_end()
+        p.loop_end()
+    add("cal_loop_nested_defer_lazy", with_src(b), [[T([[1]], [1]), T([[2]], [2, 10])]])
+
+    def b(p):       # test_batch_lazy
+        p.loop_begin()
+        p.sink(p.union(p.window(p_src[0]), p.window(p_src[1], "batch_lazy")))
+        p.loop_end()
+    add("cal_loop_batch_lazy", with_src(b, 2), [[T([[], [100]], []), T([[1], [200]], [1, 200]), T([[2], []], [2]),
+                                                T([[], [300]], [])]])
+
+    def b(p):       # test_all_iterations
+        p.loop_begin()
+        rd = p.simple(p.window(p_src[0]), "identity")
+        p.loop_begin()
+        u = cyc(p, p.window(rd))
+        p.loop_end()
+        p.sink(p.unwindow(u))
+        p.loop_end()
+    add("cal_loop_all_iterations", with_src(b), [[T([[1]], [1, 10, 100])]])
+
+    def b(p):       # test_root_loop_defer_tick: one step per tick
+        p.loop_begin()
+        p.sink(cyc(p, p.window(p_src[0])))
+        p.loop_end()
+    add("cal_loop_root_defer_tick", with_src(b), [[T([[1]], [1]), T([[]], [10]), T([[]], [100]), T([[]], [])]])
+
+    def b(p):       # test_root_loop_defer_tick_lazy
+        p.loop_begin()
+        p.sink(cyc(p, p.window(p_src[0]), lazy=True))
+        p.loop_end()
+    add("cal_loop_root_defer_lazy", with_src(b), [[T([[1]], [1]), T([[]], []), T([[2]], [2, 10])]])
+
+    # ---- surface_handoff.rs
+    def b(p):       # test_singleton_reference: 42 + 1..=3 (first tick only: source_iter)
+        sv = p.cell(p.source_iter([42]), "singleton")
+        p.sink(p.ref_map(p.source_iter([1, 2, 3]), sv, "add_ref"))
+        p.sink(sv)
+    add("cal_ref_singleton", b, [[T([], [43, 44, 45], [42])]])
+
+    def b(p):       # test_singleton_reference_only_multi_tick: persist -> singleton read by a stream
+        sv = p.cell(p.persist(p.source_iter([42])), "singleton")
+        p.sink(p.ref_map(p.src(), sv, "add_ref"))
+    add("cal_ref_singleton_multi_tick", b, [[T([[1, 3]], [43, 45]), T([[100]], [142])]])
+
+    def b(p):       # test_singleton_access_group_ordering: group 0 adds 10, group 1 reads -> 11
+        sv = p.cell(p.source_iter([0]), "singleton")
+        p.sink(p.ref_map(p.source_iter([10]), sv, "acc_mut", group=0))
+        p.sink(p.ref_map(p.source_iter([1]), sv, "add_ref", group=1))
+        p.sink(sv)
+    add("cal_ref_access_groups", b, [[T([], [10], [11], [10])]])
+
+    def b(p):       # test_handoff_reference: len of the buffer = 5
+        hb = p.cell(p.source_iter([1, 2, 3, 4, 5]), "handoff")
+        p.sink(p.ref_map(p.source_iter([0]), hb, "add_len"))
+        p.sink(hb)
+    add("cal_ref_handoff_len", b, [[T([], [5], [1, 2, 3, 4, 5])]])
+
+    def b(p):       # test_handoff_mut_reference: retain > 3 before the consumer drains
+        hb = p.cell(p.source_iter([1, 2, 3, 4, 5]), "handoff")
+        p.sink(p.ref_map(p.source_iter([3]), hb, "retain_gt"))
+        p.sink(hb)
+    add("cal_ref_handoff_retain", b, [[T([], [3], [4, 5])]])
+
+    def b(p):       # test_iter_ref_multi_tick
+        hb = p.cell(p.src(), "handoff")
+        p.sink(p.iter_ref(hb))
+        p.sink(hb)
+    add("cal_ref_iter_ref", b, [[T([[10, 20]], [10, 20], [10, 20]), T([[30]], [30], [30]), T([[]], [], [])]])
     return P
+
 
 
 # ---------------------------------------------------------------------------------------------
@@ -906,11 +1297,11 @@ def apply_random_op(p, rng, op, pool):
     P2 = lambda: (rp(rng), rp(rng))
     if op == "map":
         s = pick(rng, pool, p, "i", "p", "kp")
-        fns = [f for f, (it, _) in MAPS.items() if it == p.ty(s)]
+        fns = [f for f in RANDOM_MAPS if MAPS[f][0] == p.ty(s)]
         return [s], [p.map(s, rng.choice(fns))]
     if op == "filter":
         s = pick(rng, pool, p, "i", "p")
-        fns = [f for f, it in PREDS.items() if it == p.ty(s)]
+        fns = [f for f in RANDOM_PREDS if PREDS[f] == p.ty(s)]
         return [s], [p.filter(s, rng.choice(fns))]
     if op == "flat_map":
         s = pick(rng, pool, p, "i", "p")
@@ -983,7 +1374,7 @@ def apply_random_op(p, rng, op, pool):
         return [a, b], [p.chain(a, b)]
     if op == "partition":
         s = pick(rng, pool, p, "i", "p")
-        fns = [f for f, it in PREDS.items() if it == p.ty(s)]
+        fns = [f for f in RANDOM_PREDS if PREDS[f] == p.ty(s)]
         a, b = p.partition(s, rng.choice(fns))
         return [s], [a, b]
     if op == "unzip":
@@ -1097,7 +1488,7 @@ def history(rng, p, nsteps, avail_rate):
             r = rng.random()
             n = 0 if r < 0.25 else rng.randrange(1, 5)
             inputs.append([rand_item(rng, ty) for _ in range(n)])
-        mode = "avail" if (p.avail_ok and rng.random() < avail_rate) else "tick"
+        mode = "avail" if (p.avail_term and rng.random() < avail_rate) else "tick"
         H.append({"mode": mode, "inputs": inputs})
     return H
 
@@ -1116,10 +1507,10 @@ def build_all(seed, tier):
 
     nrand = {"quick": dict(c21=14, c22=9, c23=10, c24=6), "thorough": dict(c21=40, c22=24, c23=24, c24=16)}[tier]
 
-    base = corpus()
+    base = corpus() + refs_corpus() + loops_corpus()
     for p in base:
         pid = register(p)
-        hists[pid] = [history(rng, p, rng.randrange(3, 7), 0.3 if p.prop == "C24" else 0.15) for _ in range(2)]
+        hists[pid] = [history(rng, p, rng.randrange(3, 7), 0.3 if p.prop in ("C24", "C26") else 0.15) for _ in range(2)]
     for p in calibration():
         pid = register(p)
         hists[pid] = p.expect
@@ -1208,7 +1599,7 @@ def main():
         table.append("        %d => %s(steps, out)," % (e["id"], fname))
         meta.append({"id": e["id"], "name": e["name"], "prop": e["prop"], "base": e["base"],
                      "variant": e["variant"], "desc": e["prog"].desc(), "tags": sorted(e["prog"].tags),
-                     "avail_ok": e["prog"].avail_ok, "calibration": e["prog"].expect is not None,
+                     "avail_ok": e["prog"].avail_term, "calibration": e["prog"].expect is not None,
                      "text": e["prog"].rust_body(e["deco"])})
     src.append("pub fn run(id: u32, steps: &Value, out: &mut Trace) -> bool {")
     src.append("    match id {")
